@@ -228,6 +228,34 @@ v("b76-open-job-bisect-correct", ["C02", "C05"], "abbreviated ids resolved by bi
       "                job_ids = sorted(self._find_job_ids())\n                first = bisect_left(job_ids, id)\n                last = bisect_right(job_ids, id + \"f\" * (JOB_ID_LENGTH - len(id)))\n                matches = job_ids[first:last]\n"))
 
 
+# ---- variants for the rules added after round 6
+v("b77-reduce-results-ifexp-none", ["C06", "C07"], "first-match test written as a conditional expression on `is None`",
+  (SI, "            if result_ids is None:  # First match\n                result_ids = match\n            else:  # Update previous match\n                result_ids = result_ids.intersection(match)",
+       "            result_ids = match if result_ids is None else result_ids.intersection(match)"))
+v("b78-find-expression-float-local", ["C06", "C07"], "float form bound to a separate local; the int key still comes from the original value",
+  (SI, "            if isinstance(value, Number) and float(value).is_integer():\n                result_float = index.get(_float(value), set())",
+       "            fvalue = float(value) if isinstance(value, Number) else None\n            if fvalue is not None and fvalue.is_integer():\n                result_float = index.get(_float(value), set())"))
+v("b79-read-cache-text-utf8", ["C08", "C03", "C10"], "cache read in text mode with an explicit UTF-8 encoding",
+  (P, "            with gzip.open(self.fn(self.FN_CACHE), \"rb\") as cachefile:\n                cache = json.loads(cachefile.read().decode())",
+      "            with gzip.open(self.fn(self.FN_CACHE), \"rt\", encoding=\"utf-8\") as cachefile:\n                cache = json.loads(cachefile.read())"))
+v("b80-doc-backup-condition-local", ["C14", "C13", "C15"], "the in-memory decision bound to a local",
+  (S, "        if not len(proxy) or fn is None or not os.path.isfile(fn):\n            backup = deepcopy(doc)", "        in_memory = not len(proxy) or fn is None or not os.path.isfile(fn)\n        if in_memory:\n            backup = deepcopy(doc)"))
+v("b81-docproxy-setitem-early-return", ["C15", "C14", "C13"], "dry-run guard of _DocProxy.__setitem__ written as an early return",
+  (S, "        logger.more(f\"Set '{key}'='{value}'.\")\n        if not self.dry_run:\n            self.doc[key] = value\n", "        logger.more(f\"Set '{key}'='{value}'.\")\n        if self.dry_run:\n            return\n        self.doc[key] = value\n"))
+v("b82-update-view-linkdir-local", ["C17"], "directory of the link bound to a local",
+  (LV, "        src = os.path.relpath(links[path], os.path.split(dst)[0])", "        link_dir = os.path.dirname(dst)\n        src = os.path.relpath(links[path], link_dir)"))
+v("b83-init-project-config-helper", ["C19", "C20", "C12"], "the read-modify-write of the new configuration moved into a local helper unchanged",
+  (P, "            fn_config = _get_project_config_fn(path)\n            _mkdir_p(os.path.dirname(fn_config))\n            config = _read_config_file(fn_config)\n            config[\"schema_version\"] = SCHEMA_VERSION\n            config.write()\n            project = cls.get_project(path=path)",
+      "            _write_new_project_config(path)\n            project = cls.get_project(path=path)"),
+  (P, "\n\ndef init_project(path=None):", "\n\ndef _write_new_project_config(path):\n    fn_config = _get_project_config_fn(path)\n    _mkdir_p(os.path.dirname(fn_config))\n    config = _read_config_file(fn_config)\n    config[\"schema_version\"] = SCHEMA_VERSION\n    config.write()\n\n\ndef init_project(path=None):"))
+v("b84-wsread-json-helper", ["C09", "C01", "C11", "C02"], "state point file decoded by a helper that returns exactly what json decoded",
+  (P, "            with open(fn_statepoint, \"rb\") as statepoint_file:\n                statepoint = json.loads(statepoint_file.read().decode())\n                if validate and calc_id(statepoint) != job_id:\n                    raise JobsCorruptedError([job_id])\n\n                return statepoint",
+      "            statepoint = _decode_json_file(fn_statepoint)\n            if validate and calc_id(statepoint) != job_id:\n                raise JobsCorruptedError([job_id])\n\n            return statepoint"),
+  (P, "\n\nclass _ProjectConfig", "\n\nclass _ProjectConfig") if False else (P, "JOB_ID_LENGTH = 32\n", "JOB_ID_LENGTH = 32\n\n\ndef _decode_json_file(filename):\n    with open(filename, \"rb\") as file:\n        return json.loads(file.read().decode())\n\n"))
+v("b85-setter-register-in-else", ["C08", "C01", "C04"], "registration in the else of a try around the re-key (only after success)",
+  (J, "            self.statepoint.reset(new_statepoint)\n\n        self._project._register(self.id, new_statepoint)", "            try:\n                self.statepoint.reset(new_statepoint)\n            except Exception:\n                raise\n            else:\n                self._project._register(self.id, new_statepoint)"))
+
+
 def main():
     os.makedirs(OUT, exist_ok=True)
     for f in os.listdir(OUT):
